@@ -156,10 +156,10 @@ theorem Hk.setRcv {me : Pid} {w : World} {R R' : Rcv} (h : getRcv w me = some R)
    ConnsLe.of_eq fun _ _ => rfl⟩
 
 theorem Hk.setRcv_then {me : Pid} {w w2 : World} {R R' : Rcv} (h : getRcv w me = some R) (hi : R'.init = R.init)
-    (h2 : Hk me (setRcv w me R') w2) : Hk me w w2 := (Hk.setRcv h hi).trans h2
+    (h2 : Hk me (ReqRes.setRcv w me R') w2) : Hk me w w2 := (Hk.setRcv h hi).trans h2
 
 theorem Hk.setSnd_then {me : Pid} {w w2 : World} {S S' : Snd} (h : getSnd w me = some S) (hi : S'.init = S.init)
-    (h2 : Hk me (setSnd w me S') w2) : Hk me w w2 := (Hk.setSnd h hi).trans h2
+    (h2 : Hk me (ReqRes.setSnd w me S') w2) : Hk me w w2 := (Hk.setSnd h hi).trans h2
 
 theorem Hk.detachSender {me : Pid} (w : World) (f t : Pid) : Hk me w (detachSender w f t) := by
   unfold ReqRes.detachSender
@@ -542,16 +542,16 @@ theorem rcvDropConn_hk (w : World) (me : Pid) (key : Nat) : Hk me w (rcvDropConn
   · next R hR =>
     split
     · exact Hk.refl _ _
-    · exact Hk.setRcv_then hR rfl (Hk.detachReceiver _ _ _)
+    · exact Hk.setRcv_then hR (by rfl) (Hk.detachReceiver _ _ _)
 
 theorem rcvMakeRoom_hk (w : World) (me : Pid) (R : Rcv) (hR : getRcv w me = some R) (hb : Bool) :
     Hk me w (rcvMakeRoom w me R hb) := by
   unfold rcvMakeRoom
   split
-  · exact Hk.setRcv_then hR rfl (rcvDropConn_hk _ _ _)
+  · exact Hk.setRcv_then hR (by rfl) (rcvDropConn_hk _ _ _)
   · split
     · split
-      · exact Hk.setRcv_then hR rfl (rcvDropConn_hk _ _ _)
+      · exact Hk.setRcv_then hR (by rfl) (rcvDropConn_hk _ _ _)
       · exact Hk.refl _ _
     · exact Hk.refl _ _
 
@@ -561,7 +561,7 @@ theorem rcvPushTbr_hk (w : World) (me : Pid) (key : Nat) (hb : Bool) : Hk me w (
   · exact Hk.refl _ _
   · next R hR =>
     split
-    · exact Hk.setRcv hR rfl
+    · exact Hk.setRcv hR (by rfl)
     · split
       · exact Hk.panic _
       · exact rcvDropConn_hk _ _ _
@@ -577,9 +577,23 @@ theorem rcvPrepareRemoval_hk (w : World) (me : Pid) (slot : Nat) : Hk me w (rcvP
       · exact Hk.refl _ _
       · split
         · split
-          · exact Hk.setRcv hR rfl
+          · exact Hk.setRcv hR (by rfl)
           · exact (rcvMakeRoom_hk w me R hR _).trans (rcvPushTbr_hk _ _ _ _)
         · exact rcvDropConn_hk _ _ _
+
+theorem rcvAttach_hk (w : World) (me f : Pid) (n : Nat) (R : Rcv) (hinit : R.init = initState f) :
+    Hk me w (rcvAttach w me f n R) := by
+  unfold rcvAttach
+  split
+  · next c hc => exact Hk.setConn_le hc (ConnLe.refl _)
+  · exact Hk.setConn_fresh (newConn_fresh f _ _ _ _ _ _ hinit _ _)
+
+@[simp] theorem getRcv_rcvAttach (w : World) (me f p : Pid) (n : Nat) (R : Rcv) :
+    getRcv (rcvAttach w me f n R) p = getRcv w p := by
+  unfold rcvAttach; split <;> rfl
+@[simp] theorem getSnd_rcvAttach (w : World) (me f p : Pid) (n : Nat) (R : Rcv) :
+    getSnd (rcvAttach w me f n R) p = getSnd w p := by
+  unfold rcvAttach; split <;> rfl
 
 /-- `Receiver::create`: the static hypothesis says the receiver's initial channel state is the one
 of the sender's kind -/
@@ -589,18 +603,11 @@ theorem rcvCreateConn_hk (w : World) (me : Pid) (slot : Nat) (f : Pid) (n : Nat)
   split
   · exact Hk.refl _ _
   · next R hR =>
-    have h0 : Hk me w (match getConn w f me with
-        | some c => setConn w f me { c with rAtt := true }
-        | none => setConn w f me { newConn R.cap R.overflow R.maxBorrow R.nChan n R.init with rAtt := true }) := by
-      split
-      · next c hc => exact Hk.setConn_le hc (ConnLe.refl _)
-      · exact Hk.setConn_fresh (newConn_fresh f _ _ _ _ _ _ (hinit R hR) _ _)
-    have hR' : getRcv (match getConn w f me with
-        | some c => setConn w f me { c with rAtt := true }
-        | none => setConn w f me { newConn R.cap R.overflow R.maxBorrow R.nChan n R.init with rAtt := true }) me = some R := by
-      split <;> simpa using hR
+    have h0 := rcvAttach_hk w me f n R (hinit R hR)
+    have hR' : getRcv (rcvAttach w me f n R) me = some R := by simpa using hR
+    simp only []
     split
-    · exact h0.trans (Hk.setRcv hR' rfl)
+    · exact h0.trans (Hk.setRcv hR' (by rfl))
     · exact h0.trans (Hk.panic _)
 
 theorem rcvUpdateConn_hk (w : World) (me : Pid) (slot : Nat) (f : Pid) (n : Nat)
@@ -631,7 +638,7 @@ theorem rcvFinish_hk (w : World) (me : Pid) (tagged : List Nat) (fuel n : Nat) :
           · have h1 := rcvPrepareRemoval_hk w me n
             refine h1.trans ?_
             split
-            · next R' hR' => exact Hk.setRcv hR' rfl
+            · next R' hR' => exact Hk.setRcv hR' (by rfl)
             · exact Hk.refl _ _
           · exact Hk.refl _ _
 
@@ -703,8 +710,144 @@ theorem recvFromConn_spec (w : World) (me : Pid) (R : Rcv) (key ch : Nat) :
             intro h m hm
             simp only [RecvRes.some.injEq] at hm
             obtain ⟨rfl, rfl⟩ := hm
-            refine ⟨hf, rfl, rfl, c, x, _, _, hc, hx, getConn_setConn_same _ _ _ _, ?_, ?_, rfl⟩
+            refine ⟨hf, rfl, rfl, c, x, _, { x with sub := rest, borrow := x.borrow + 1 }, hc, hx,
+              getConn_setConn_same _ _ _ _, ?_, ?_, rfl⟩
             · exact getElem?_set_self' _ _ _ _ hx
             · simp only [hsub]; exact List.suffix_refl _
+
+/-- result of a receive call: housekeeping, and a returned element was taken from the front of
+channel `ch` of the connection it names -/
+def RecvSpec (me : Pid) (ch : Nat) (w : World) (r : World × RecvRes) : Prop :=
+  Hk me w r.1 ∧ ∀ h m, r.2 = .some h m → h.channel = ch ∧ Popped w r.1 h.origin me ch ⟨h.chunk, m⟩
+
+theorem RecvSpec.of_hk {me : Pid} {ch : Nat} {w w1 : World} {r : World × RecvRes} (h1 : Hk me w w1)
+    (h2 : RecvSpec me ch w1 r) : RecvSpec me ch w r :=
+  ⟨h1.trans h2.1, fun h m e => ⟨(h2.2 h m e).1, Popped.of_le h1.conns (h2.2 h m e).2⟩⟩
+
+theorem RecvSpec.none {me : Pid} {ch : Nat} {w w1 : World} (h1 : Hk me w w1) : RecvSpec me ch w (w1, .none) :=
+  ⟨h1, fun _ _ e => by cases e⟩
+theorem RecvSpec.maxBorrow {me : Pid} {ch : Nat} {w w1 : World} (h1 : Hk me w w1) : RecvSpec me ch w (w1, .maxBorrow) :=
+  ⟨h1, fun _ _ e => by cases e⟩
+
+theorem recvFromConn_recvSpec (w : World) (me : Pid) (R : Rcv) (key ch : Nat) :
+    RecvSpec me ch w (recvFromConn w me R key ch) := by
+  obtain ⟨h1, h2⟩ := recvFromConn_spec w me R key ch
+  exact ⟨h1, fun h m e => ⟨(h2 h m e).2.1, (h2 h m e).2.2.2⟩⟩
+
+theorem recvTbr_spec (w : World) (me : Pid) (ch fuel i : Nat) : RecvSpec me ch w (recvTbr w me ch fuel i) := by
+  induction fuel generalizing w i with
+  | zero => exact RecvSpec.none (Hk.refl _ _)
+  | succ fuel ih =>
+    simp only [recvTbr]
+    split
+    · exact RecvSpec.none (Hk.refl _ _)
+    · next R hR =>
+      split
+      · exact RecvSpec.none (Hk.refl _ _)
+      · next key _ =>
+        split
+        · exact RecvSpec.of_hk (Hk.setRcv hR (by rfl)) (ih _ _)
+        · next f _ =>
+          split
+          · exact ih _ _
+          · have hs := recvFromConn_recvSpec w me R key ch
+            split
+            · next w' h m heq => rw [heq] at hs; exact hs
+            · next w' heq => rw [heq] at hs; exact RecvSpec.maxBorrow hs.1
+            · next w' heq =>
+              rw [heq] at hs
+              split
+              · exact RecvSpec.of_hk hs.1 (ih _ _)
+              · have hR' : getRcv w' me = some R := by
+                  have := hs.1.rcvInit
+                  -- `recvFromConn` does not touch the receiver records
+                  have h2 : getRcv (recvFromConn w me R key ch).1 me = getRcv w me := by
+                    unfold recvFromConn
+                    split
+                    · rfl
+                    · split
+                      · rfl
+                      · split
+                        · rfl
+                        · split
+                          · rfl
+                          · split <;> rfl
+                  rw [heq] at h2
+                  rw [h2, hR]
+                exact RecvSpec.of_hk hs.1 (RecvSpec.of_hk (Hk.setRcv_then hR' (by rfl) (rcvDropConn_hk _ _ _)) (ih _ _))
+
+theorem recvScan_spec (w : World) (me : Pid) (R : Rcv) (ch : Nat) (l : List (Nat × Pid)) (acc : ScanAcc) :
+    RecvSpec me ch w ((recvScan w me R ch l acc).1, (recvScan w me R ch l acc).2.1) := by
+  induction l generalizing w acc with
+  | nil => exact RecvSpec.none (Hk.refl _ _)
+  | cons a r ih =>
+    obtain ⟨key, f⟩ := a
+    simp only [recvScan]
+    split
+    · exact ih _ _
+    · split
+      · exact ih _ _
+      · split
+        · exact ih _ _
+        · split
+          · exact ih _ _
+          · have hs := recvFromConn_recvSpec w me R key ch
+            split
+            · next w' h m heq => rw [heq] at hs; exact hs
+            · next w' heq => rw [heq] at hs; exact RecvSpec.maxBorrow hs.1
+            · next w' heq => rw [heq] at hs; exact RecvSpec.of_hk hs.1 (ih _ _)
+
+theorem rcvReceive_spec (w : World) (me : Pid) (ch : Nat) : RecvSpec me ch w (rcvReceive w me ch) := by
+  unfold rcvReceive
+  split
+  · exact RecvSpec.none (Hk.refl _ _)
+  · next R hR =>
+    have h1 := recvTbr_spec w me ch (R.tbr.length + 1) 0
+    split
+    · next w' h m heq => rw [heq] at h1; exact h1
+    · next w' heq => rw [heq] at h1; exact RecvSpec.maxBorrow h1.1
+    · next w' heq =>
+      rw [heq] at h1
+      split
+      · exact RecvSpec.none h1.1
+      · next R' hR' =>
+        have h2 := recvScan_spec w' me R' ch (SlotMap.items R'.storage) {}
+        split
+        · next w'' h m acc heq2 =>
+          rw [heq2] at h2; exact RecvSpec.of_hk h1.1 h2
+        · next w'' acc heq2 =>
+          rw [heq2] at h2; exact RecvSpec.maxBorrow (h1.1.trans h2.1)
+        · next w'' acc heq2 =>
+          rw [heq2] at h2
+          split
+          · exact RecvSpec.maxBorrow (h1.1.trans h2.1)
+          · exact RecvSpec.none (h1.1.trans h2.1)
+
+theorem rcvRelease_hk (w : World) (me : Pid) (h : Held) : Hk me w (rcvRelease w me h) := by
+  unfold rcvRelease
+  split
+  · exact Hk.refl _ _
+  · split
+    · exact Hk.refl _ _
+    · split
+      · exact Hk.refl _ _
+      · split
+        · exact Hk.refl _ _
+        · next c hc =>
+          unfold Conn.chan
+          split
+          · exact Hk.refl _ _
+          · next x hx =>
+            split
+            · exact Hk.setConn_le hc (ConnLe.setChan hx ⟨rfl, List.suffix_refl _⟩)
+            · exact Hk.refl _ _
+
+theorem rcvDestroyKeys_hk (w : World) (me : Pid) (l : List (Nat × Pid)) : Hk me w (rcvDestroyKeys w me l) := by
+  induction l generalizing w with
+  | nil => exact Hk.refl _ _
+  | cons a r ih =>
+    obtain ⟨k, f⟩ := a
+    simp only [rcvDestroyKeys]
+    exact (Hk.detachReceiver w f me).trans (ih _)
 
 end Iox2.ReqRes
